@@ -176,6 +176,72 @@ theorem captured_bytes_records (S : Schema) (id : Nat) (n : Nat) (b : Bytes) (rs
       ((unknownOf S id rs).map fun r => tag r.num r.wire ++ r.raw).flatten = some (unknownOf S id rs) :=
   records_retag _ fun r hm => selfParsing_of_records n b rs hr r (List.mem_filter.mp hm).1
 
+/-- `records_retag` at any sufficient fuel -/
+theorem records_retag_fuel : ∀ (rs : List Record) (n : Nat), rs.length < n → (∀ r ∈ rs, SelfParsing r) →
+    records n (rs.map fun r => tag r.num r.wire ++ r.raw).flatten = some rs := by
+  intro rs
+  induction rs with
+  | nil => intro n hn _; obtain ⟨k, rfl⟩ : ∃ k, n = k + 1 := ⟨n - 1, by omega⟩; rfl
+  | cons r rs ih =>
+    intro n hn hall
+    obtain ⟨k, rfl⟩ : ∃ k, n = k + 1 := ⟨n - 1, by omega⟩
+    have hp := hall r (List.mem_cons_self ..) (rs.map fun r => tag r.num r.wire ++ r.raw).flatten
+    have hne : (List.map (fun r => tag r.num r.wire ++ r.raw) (r :: rs)).flatten ≠ [] := by
+      intro h0
+      simp only [List.map_cons, List.flatten_cons] at h0
+      rw [h0] at hp
+      rw [parse1_nil] at hp
+      cases hp
+    rw [records_succ, if_neg (by simpa [List.isEmpty_iff] using hne)]
+    simp only [List.map_cons, List.flatten_cons]
+    rw [hp]
+    simp only
+    rw [ih k (by simp only [List.length_cons] at hn; omega) (fun r hr => hall r (List.mem_cons_of_mem _ hr))]
+    rfl
+
+/-- a re-emitted record is not empty -/
+theorem retag_ne_nil {r : Record} (h : SelfParsing r) : tag r.num r.wire ++ r.raw ≠ [] := by
+  intro h0
+  have := h []
+  rw [List.append_nil, h0, parse1_nil] at this
+  cases this
+
+theorem retag_length_le : ∀ (rs : List Record), (∀ r ∈ rs, SelfParsing r) →
+    rs.length ≤ ((rs.map fun r => tag r.num r.wire ++ r.raw).flatten).length := by
+  intro rs
+  induction rs with
+  | nil => intro _; simp
+  | cons r rs ih =>
+    intro hall
+    have h1 := retag_ne_nil (hall r (List.mem_cons_self ..))
+    have h2 := ih (fun r hr => hall r (List.mem_cons_of_mem _ hr))
+    have : 0 < (tag r.num r.wire ++ r.raw).length := List.length_pos_iff.mpr h1
+    simp only [List.map_cons, List.flatten_cons, List.length_append, List.length_cons] at this ⊢
+    omega
+
+/-- the captured bytes of ANY accepted input meet the `unrecOk` premise of strict well-typedness
+(`wtMsg S true`), the hypothesis of the round-trip theorems about `XXX_unrecognized`: they tokenize,
+every record is unknown to the message, and they are in re-tagged normal form -/
+theorem captured_unrecOk (S : Schema) (id : Nat) (n : Nat) (b : Bytes) (rs : List Record)
+    (hr : records n b = some rs) :
+    unrecOk (S.msg id).fields ((unknownOf S id rs).map fun r => tag r.num r.wire ++ r.raw).flatten = true := by
+  have hsp : ∀ r ∈ unknownOf S id rs, SelfParsing r :=
+    fun r hm => selfParsing_of_records n b rs hr r (List.mem_filter.mp hm).1
+  have hrec := records_retag_fuel (unknownOf S id rs)
+    (((unknownOf S id rs).map fun r => tag r.num r.wire ++ r.raw).flatten.length + 1)
+    (by have := retag_length_le _ hsp; omega) hsp
+  unfold unrecOk
+  rw [hrec]
+  simp only [Bool.and_eq_true, List.all_eq_true, beq_self_eq_true, and_true, Bool.not_eq_eq_eq_not, Bool.not_true]
+  intro r hm
+  have := (List.mem_filter.mp hm).2
+  rw [Option.isNone_iff_eq_none] at this
+  have hno := (findField_none_iff _ _).mp this
+  rw [Bool.eq_false_iff]
+  intro ha
+  obtain ⟨f, hf, he⟩ := List.any_eq_true.mp ha
+  exact hno f hf (by simpa using he)
+
 /-- CHAIN, any intermediary: what the intermediary re-marshals is its known part (canonical) followed
 by the captured records; a receiver that accepts the known part applies, after it, exactly the
 sender's records the intermediary did not know, in the sender's order -/
